@@ -1,7 +1,8 @@
 """C12 -- confidence bands follow their definitions, bracket the winner, only add bands.
 
 T-corr: the extracted model (Model/Confidence.v: ambiguity, percentile normalisation, risk, interval
-        bounds, regularisation, std variance, band bookkeeping, indicator naming, WTA) against the
+        bounds, regularisation, std band (variance, NaN border), band bookkeeping, indicator naming, WTA; and
+        Model/ConfPipeline.v: the stacked confidence steps followed by the wta disparity step on the whole state) against the
         real code, driven through PandoraMachine.cost_volume_confidence_run (which sets the indicator
         suffix and calls AbstractCostVolumeConfidence(**cfg).confidence_prediction) on hand-built cost
         volume datasets of the exact domain (cost span a power of two), several steps stacked.
@@ -27,7 +28,8 @@ RULE = ("kernel stream: cost volumes 3..6 x 3..8 x 2..7 (plus 1..2-pixel volumes
         "of two, NaN holes, all-NaN pixels, ties, min and max measures, integer or sub-pixel disparity axis, "
         "eta_max/eta_step in {0.7/0.01, 0.5/0.125, 0.3/0.1}, thresholds {0.5, 0.9, 1.0}, 1-5 stacked confidence "
         "steps (ambiguity normalised or not, risk, interval_bounds with/without regularisation, std_intensity) in "
-        "random order with random suffixes on cv/disp datasets with or without earlier bands; a case is "
+        "random order with random suffixes on cv/disp datasets with or without earlier bands, left image with NaN "
+        "pixels in 20% of the cases; a case is "
         "non-trivial when the volume has >= 2 distinct finite costs and >= 1 step ran; distinct by (volume, "
         "measure, steps). pipeline stream: random accepted pipelines on small image pairs (sad/census/zncc) run "
         "with and without their confidence steps")
@@ -41,11 +43,18 @@ ASSUMES = [
     "ambiguity returned by the real kernel",
     "np.argsort in compute_interval_bounds is modelled by its contract (a permutation: min/max index of the "
     "selected set); numba's nanquantile / numpy's percentile by linear interpolation between order statistics",
-    "std_intensity: the model returns the window variance (the square root is not rational); band^2 is compared "
-    "with it; the 1e-15 relative zeroing of tiny variances is below the exact-domain resolution",
-    "confidence_steps_transparent is proved over abstract step functions (non-confidence steps do not read the "
-    "confidence bands to produce cost volume / disparity / mask); on the real code it is checked by impl-vs-impl "
-    "pipeline runs, not proved",
+    "std_intensity: the model band holds the window variance (the square root is not rational); band^2 is "
+    "compared with it (NaN pattern exactly); the float 10**-15 of the tiny-variance zeroing is data",
+    "transparency: proved for abstract steps (C12_confidence_steps_transparent) and instantiated "
+    "(C12_confidence_transparent_builtin) for the whole-state model of Model/ConfPipeline.v: the four confidence "
+    "methods, wta disparity (Model/Wta.v), cbca aggregation (Model/Cbca.v), refinement (Model/Refine.v). The "
+    "confidence-steps-then-wta part of that model is compared with the real datasets on every kernel case (fid 12: "
+    "disparity map, mask, names and values of all bands of both datasets); the glue around the cbca and refinement "
+    "kernels (conversion of array representations) is NOT exercised by a correspondence; filter, validation, "
+    "optimization, multiscale, semantic segmentation and the matching cost have no instance: for them, and for "
+    "everything on the real code, transparency is checked by impl-vs-impl pipeline runs, not proved",
+    "std_intensity on an image with NaN pixels: the model follows np.nancumsum (NaN counts as 0, in the image and in "
+    "its square); the oracle of the property is applied only to windows without a NaN pixel",
 ]
 TRUSTED = ["numpy/xarray primitives used by allocate_confidence_map (np.append, drop_dims, DataArray construction) "
            "are observed through the datasets they produce"]
@@ -163,6 +172,9 @@ def gen_case(rng, tiny=False):
                                                                   "cfg": {"confidence_method": "ambiguity"}}]
     c["window"] = 1 if tiny else rng.choice([w for w in (1, 3, 5) if w <= min(nr, nc)])
     c["img"] = [[rng.randrange(0, 256) for _ in range(nc)] for _ in range(nr)]
+    if not tiny and rng.random() < 0.2:            # NaN pixels in the left image (np.nancumsum counts them as 0)
+        for _ in range(rng.choice([1, 1, 2])):
+            c["img"][rng.randrange(nr)][rng.randrange(nc)] = None
     # earlier bands: cv without / with bands; disp None (as the state machine calls it) / without / with bands
     c["cv_bands"] = rng.choice([0, 0, 0, 1, 2])
     c["disp"] = rng.choice(["none", "none", "none", "nobands", "bands"])
@@ -202,7 +214,8 @@ def make_datasets(case):
                           coords={"row": np.arange(nr), "col": np.arange(nc)})
         if case["disp"] == "bands":
             disp["confidence_measure"] = bands(2, "disp")
-    img = pu.image_dataset(np.array(case["img"], dtype=np.float32), disp=(int(np.floor(case["disps"][0])),
+    img = pu.image_dataset(np.array([[np.nan if x is None else x for x in row] for row in case["img"]],
+                                    dtype=np.float32), disp=(int(np.floor(case["disps"][0])),
                                                                           int(np.ceil(case["disps"][-1]))))
     return cv, disp, img
 
@@ -410,6 +423,11 @@ def run_kernel_case(ctx, case, pend):
                                              or 1)
     wire_steps = []
     ran = 0
+    pipe_steps, pipe_ok, amb_normalised = [], True, {}   # whole-pipeline model (fid 12): see below
+    init_cv_bands = [[[ord(ch) for ch in n], qmap(cv_in["confidence_measure"].data[:, :, j])]
+                     for j, n in enumerate(names_of(cv_in) or [])] or 1
+    init_disp_bands = 0 if disp is None else ([[[ord(ch) for ch in n], qmap(disp_in["confidence_measure"].data[:, :, j])]
+                                               for j, n in enumerate(names_of(disp_in))] or 1)
     for st in case["steps"]:
         name, cfg = st["name"], copy.deepcopy(st["cfg"])
         method = cfg["confidence_method"]
@@ -476,8 +494,14 @@ def run_kernel_case(ctx, case, pend):
                 ctx.mismatch("eta_samples", replay, int(samp.shape[2]), len(etas))
                 return
             eq = [core.to_q(float(e)) for e in etas]
+            pipe_steps.append([[ord(ch) for ch in name], METHOD_CODE[method],
+                               [cfg.get("normalization", True), core.to_q(float(conf.ambiguity.Ambiguity._PERCENTILE)),
+                                eq] if method == "ambiguity" else [eq]])
+            if method == "ambiguity":
+                amb_normalised["confidence_from_ambiguity" + suf] = cfg.get("normalization", True)
             if not margins_ok(case, etas, None):
                 ctx.count("skipped_margin")
+                pipe_ok = False
                 continue
         if method == "ambiguity":
             normalised = cfg.get("normalization", True)
@@ -526,8 +550,21 @@ def run_kernel_case(ctx, case, pend):
         elif method == "interval_bounds":
             thr = cfg.get("possibility_threshold", 0.9)
             thr32 = np.float32(thr)
+            reg = 0
+            if cfg.get("regularization"):
+                ind_ = "confidence_from_ambiguity" + ("" if cfg["ambiguity_indicator"] == "" else
+                                                       "." + cfg["ambiguity_indicator"])
+                reg = [[ord(ch) for ch in ind_], core.to_q(float(cfg["ambiguity_threshold"])),
+                       cfg["ambiguity_kernel_size"], cfg["vertical_depth"],
+                       core.to_q(float(cfg["quantile_regularization"]))]
+                # the pipeline model regularises with ITS OWN ambiguity band: only an un-normalised one (integer
+                # counts, exact in float32) keeps the threshold decisions free of rounding
+                if amb_normalised.get(ind_, True) or cfg["quantile_regularization"] not in (0.0, 1.0):
+                    pipe_ok = False
+            pipe_steps.append([[ord(ch) for ch in name], METHOD_CODE[method], [core.to_q(float(thr32)), reg]])
             if not margins_ok(case, None, thr32):
                 ctx.count("skipped_margin")
+                pipe_ok = False
                 continue
             binf, bsup = new
             tq = core.to_q(float(thr32))
@@ -538,6 +575,7 @@ def run_kernel_case(ctx, case, pend):
                 amb = m.left_cv["confidence_measure"].sel({"indicator": ind}).data
                 if not np.all(np.isfinite(amb)):
                     ctx.count("skipped_nan_ambiguity")
+                    pipe_ok = False
                     continue
                 q = cfg["quantile_regularization"]
                 if q == 1.0 and two_distinct:
@@ -575,26 +613,34 @@ def run_kernel_case(ctx, case, pend):
             band = new[0]
             w = case["window"]
             off = (w - 1) // 2
-            im = np.array(case["img"], dtype=np.float64)
+            im = np.array([[np.nan if x is None else x for x in row] for row in case["img"]], dtype=np.float64)
             want = np.full((nr, nc), np.nan)
             for r in range(off, nr - off):
                 for c in range(off, nc - off):
-                    want[r, c] = np.std(im[r - off:r + off + 1, c - off:c + off + 1])
+                    win = im[r - off:r + off + 1, c - off:c + off + 1]
+                    if np.isnan(win).any():
+                        # a NaN pixel in the window: the property text does not say; only the model is compared
+                        ctx.count("std_windows_with_nan_pixel")
+                        want[r, c] = band[r, c]
+                    else:
+                        want[r, c] = np.std(win)
             if not np.allclose(band, want, rtol=1e-5, atol=1e-4, equal_nan=True):
                 ctx.violation("std_def", f"intensity_std band {band.tolist()} is not the standard deviation of the "
-                              f"{w}x{w} left window (image {case['img']})", replay)
+                              f"{w}x{w} left window, NaN on the border (image {case['img']})", replay)
 
-            def chk(res, band=band, off=off, name=name):
+            def chk(res, band=band, name=name):
+                # model: the whole band, None = NaN (border), Some v = the (zeroed) window variance
                 var = [[core.q_of(x) for x in row] for row in res]
-                inner = band[off:nr - off, off:nc - off] if off else band
-                ok = inner.shape == (len(var), len(var[0]) if var else 0) and all(
-                    core.close(float(inner[r, c]) ** 2, var[r][c], rel=2.0 ** -16, abs_=2.0 ** -16)
-                    for r in range(len(var)) for c in range(len(var[0])))
-                border = np.ones((nr, nc), dtype=bool)
-                border[off:nr - off, off:nc - off] = False
-                ok = ok and bool(np.all(np.isnan(band[border])))
-                return (ok, band.tolist(), [[float(x) for x in row] for row in var]), "std:" + name, replay
-            pend.ask(8, [w, [[F(x) for x in row] for row in case["img"]]], chk)
+                ok = len(var) == nr and all(len(row) == nc for row in var) and all(
+                    (np.isnan(band[r, c]) if var[r][c] is None else
+                     (not np.isnan(band[r, c])) and core.close(float(band[r, c]) ** 2, var[r][c],
+                                                              rel=2.0 ** -16, abs_=2.0 ** -16))
+                    for r in range(nr) for c in range(nc))
+                return (ok, band.tolist(), [[None if x is None else float(x) for x in row] for row in var]), \
+                    "std:" + name, replay
+            imgq = [[None if x is None else F(x) for x in row] for row in case["img"]]
+            pend.ask(11, [core.to_q(10 ** (-15)), w, imgq], chk)
+            pipe_steps.append([[ord(ch) for ch in name], METHOD_CODE[method], [core.to_q(10 ** (-15)), w, imgq]])
 
     # ---- WTA on the volume the confidence steps saw: bracket (spec) and model WTA (correspondence)
     try:
@@ -634,6 +680,43 @@ def run_kernel_case(ctx, case, pend):
         got = qmap(d)
         return (got == want, got, want), "wta", replay
     pend.ask(5, [is_min, vq], chk_wta)
+
+    # ---- the concrete pipeline model (Model/ConfPipeline.v: these confidence steps, then the wta disparity step,
+    #      run on the whole state) against the real datasets: disparity map, mask, names and VALUES of all bands
+    if pipe_ok and len(pipe_steps) == len(case["steps"]) and abs(float(np.nanmax(np.abs(d)))) < 1e6:
+        def chk_pipe(res, m=m, dm=dm, d=d):
+            if len(res) != 4:
+                return (False, "real run completed", res), "pipeline_model", replay
+            why = []
+            if qmap(d) != [[core.q_of(x) for x in row] for row in res[0]]:
+                why.append("disparity_map")
+            if dm["validity_mask"].data.tolist() != res[1]:
+                why.append("validity_mask")
+            for tag, ds, wire in (("disp", dm, res[2]), ("cv", m.left_cv, res[3])):
+                got = names_of(ds)
+                if wire in (0, 1):
+                    if got != ([] if wire == 1 else None):
+                        why.append(tag + " bands presence")
+                    continue
+                if got != ["".join(chr(x) for x in e[0]) for e in wire]:
+                    why.append(tag + " band names")
+                    continue
+                dd = ds["confidence_measure"].data
+                for j, e in enumerate(wire):
+                    if got[j].startswith("confidence_from_intensity_std"):
+                        # the model band holds the variance: compare the square of the real band
+                        okb = all(core.close(None if np.isnan(dd[r, c, j]) else float(dd[r, c, j]) ** 2,
+                                             core.q_of(e[1][r][c]), rel=2.0 ** -16, abs_=2.0 ** -16)
+                                  for r in range(nr) for c in range(nc))
+                    else:
+                        okb = cmp_close(dd[:, :, j], e[1])[0]
+                    if not okb:
+                        why.append(f"{tag} band {got[j]}: real {dd[:, :, j].tolist()} model "
+                                   f"{[[None if x == [] else float(core.q_of(x)) for x in row] for row in e[1]]}")
+            return (not why, [names_of(dm), names_of(m.left_cv), d.tolist()], why), "pipeline_model", replay
+        ctx.count("pipeline_model_cases")
+        pend.ask(12, [pipe_steps, init_disp_bands, init_cv_bands,
+                      [nr, nc, not is_min, 1, dq, vq, cv_in["validity_mask"].data.tolist()], 100, F(-9999)], chk_pipe)
 
     # ---- names and order of all bands in both datasets (model of allocate_confidence_map + suffix rule)
     def chk_names(res, m=m, table=table):
